@@ -30,9 +30,15 @@ LEVEL_NOTE = ("Proved about the MODEL of the queue only; the C++ is connected to
               "is C04/C05's business - here fresh and incremental are only compared with each other. Rectangles "
               "and free-floating junctions only (no connection pins, clusters, checkpoints, hyperedges); the "
               "generator keeps shapes interior-disjoint with gaps >= 1 and endpoints >= 1 away from shapes. "
-              "Route validity is judged against shapes (junction boxes are only used in the DIVERGE-level graph "
-              "audit). deleteJunction with transactions off is not generated (re-entrant processTransaction from "
-              "~ShapeConnectionPin, reported under C15).")
+              "Route validity is judged against shapes; junction obstacle boxes are used in the DIVERGE-level graph "
+              "audit and, for polyline routes, only to recognise a route running through the DIAGONAL of a junction "
+              "box (same newBlockingShape defect as for shapes, known finding C06-block-diagonal); orthogonal routes "
+              "legitimately cross free-floating junctions. An invalid route is not cost-compared. Within one "
+              "history the two known-finding classes (through-two-corners, not-rerouted-fewer-bends*) rank below "
+              "every other failure so they cannot mask one; a stale route that stays unchanged keeps the class it "
+              "was first reported with. deleteJunction with transactions off (also: switching transactions off "
+              "while a deleteJunction is queued) is not generated: re-entrant processTransaction from "
+              "~ShapeConnectionPin, reported under C15.")
 TECHNIQUE = ("Lean 4 refinement proof of the action-queue state machine (invariant + per-call simulation + flush "
              "theorem) + exact rational route / cost / graph checkers with soundness theorem + correspondence harness "
              "with a from-scratch router as oracle")
@@ -55,7 +61,6 @@ ASSUMPTIONS = ["shapes are rectangles, interior-disjoint, endpoints in free spac
                "no connection pins / clusters / checkpoints / hyperedges / routing-option changes between transactions"]
 EXPLANATION = ("obligations = theorems of Props/C06.lean; evaluations = histories; every history contributes one scene "
                "tie per API call and one route/cost/graph audit per processing point")
-WIP = True
 
 
 def plan(tier, seed, searching):
